@@ -159,8 +159,9 @@ class Gate(dict):
 
         # Controlled rotations are 4*pi-periodic: a rotation by 2*pi is -1 on the controlled branch, not a global phase
         period = 4 * pi if ds["name"] in {"CRX", "CRY", "CRZ"} else 2 * pi
-        parameter = round(ds["parameter"] % period, 7) if isinstance(ds["parameter"], (float, int)) else ds["parameter"]
-        other_parameter = round(do["parameter"] % period, 7) if isinstance(do["parameter"], (float, int)) else do["parameter"]
+        numeric = (float, int, floating, integer)
+        parameter = round(float(ds["parameter"]) % period, 7) if isinstance(ds["parameter"], numeric) else ds["parameter"]
+        other_parameter = round(float(do["parameter"]) % period, 7) if isinstance(do["parameter"], numeric) else do["parameter"]
 
         return parameter == other_parameter
 
